@@ -7,7 +7,7 @@
    NOT proved: the deadline clause end-to-end through the loop model (that the timer created by
    queue_send_new fires at its deadline is the loop model's iteration rule); checked on every run. *)
 From PS Require Import Lib.Base Generated.Consts Model.SdTypes Model.Config Model.Session Model.StackTypes Model.Stack
-  Model.StackIO Proofs.QueueProofs Proofs.WorldInv.
+  Model.StackIO Proofs.QueueProofs Proofs.WorldInv Proofs.WorldTime.
 
 Theorem C15_conservation : forall ops s d, QInv s ->
   sent_for d (snd (q_run s ops)) ++ pending_for (fst (q_run s ops)) d = pending_for s d ++ queued_for d ops.
@@ -47,7 +47,17 @@ Proof. intros w Hg c H. exact (g_coll _ _ Hg c H). Qed.
 Theorem C15_in_every_reachable_state : forall s sc, d_scenario s = Some sc -> G (fst (run_scenario sc)).
 Proof. exact G_reachable. Qed.
 
+(* deadline: the collector's timeout handle is armed at now + timeout (C15_new_collector_deadline) and every timer callback
+   the loop runs was armed for exactly the current instant: a collected batch leaves exactly when its window closes *)
+Theorem C15_timeouts_run_exactly_at_their_deadline : forall arrivals rv w, Tinv w ->
+  let w1 := fold_left (fun acc h => call_soon h acc) arrivals w in
+  (exists due', ready (iter_pre arrivals rv w) = ready w1 ++ map (fun t : N * N * handle => (Some (snd (fst t)), snd t)) due'
+                /\ forall t, In t due' -> In t (timers w) /\ fst (fst t) = now w)
+  /\ Tinv (iteration arrivals rv w) /\ now (iteration arrivals rv w) = now w.
+Proof. exact iteration_on_time. Qed.
+
 Print Assumptions C15_conservation.
+Print Assumptions C15_timeouts_run_exactly_at_their_deadline.
 Print Assumptions C15_open_collector_owns_its_timeout.
 Print Assumptions C15_in_every_reachable_state.
 Print Assumptions C15_exactly_once_in_order.
